@@ -447,7 +447,7 @@ func Harness_C11_run() {
 	started := map[string]int{}
 	terminated := false
 	for k := 0; k < n; k++ {
-		f := zzsym.Choice("frame", 9)
+		f := zzsym.Choice("frame", zzsym.Param("alphabet", 9))
 		in := c11Frame(f)
 		me.script = append(me.script, in)
 		if !terminated && in.err == nil && in.m.t == startMessageType {
